@@ -289,7 +289,7 @@ static void fuzz_eval(int d, const uint8_t *in, size_t n, uint64_t mask, int nee
  * run in a forked child so that the remaining cases still execute; the parent turns a report carrying the class's
  * signature into a violation with a specific key and passes every other report through unchanged to stderr (where the
  * driver keys it).  Once a class is seen not to crash (fixed tree) its evaluations run in-process like all others;
- * while it does crash, at most 3 evaluations of the class are forked per process (each report costs ~1 s of
+ * while it does crash, at most 2 evaluations of the class are forked per process (each report costs ~1 s of
  * symbolisation) and the rest are counted in `isolated_evaluations_skipped_budget`.
  *  A tag-overread: the tag field starts with five continuation bytes (the fifth with <= 4 value bits), more bytes
  *    follow, and the first block of the chain ends exactly after the fifth byte: decode_tag_internal pulls up 5 bytes
@@ -299,10 +299,10 @@ static void fuzz_eval(int d, const uint8_t *in, size_t n, uint64_t mask, int nee
 struct iso_class { const char *rule, *what, *sig[3]; int state /* -1 unknown, 0 clean, 1 crashes */, budget; };
 static struct iso_class ISO_TAG = { "tag-decoder-reads-past-5-byte-block",
 	"ASan heap-buffer-overflow READ of size 1 in decode_tag_internal: sixth tag byte read after a 5-byte pullup (first block is exactly 5 bytes)",
-	{ "AddressSanitizer: heap-buffer-overflow", "READ of size 1", "decode_tag_internal" }, -1, 3 };
+	{ "AddressSanitizer: heap-buffer-overflow", "READ of size 1", "decode_tag_internal" }, -1, 2 };
 static struct iso_class ISO_EMPTY = { "unmarshal-empty-payload-passes-null-to-memcpy",
 	"UBSan: evtag_unmarshal of a zero-length payload passes NULL (evbuffer_pullup(src,0)) to evbuffer_add -> memcpy",
-	{ "runtime error: null pointer passed as argument 2", "evtag_unmarshal", "evbuffer_add" }, -1, 3 };
+	{ "runtime error: null pointer passed as argument 2", "evtag_unmarshal", "evbuffer_add" }, -1, 2 };
 /* returns 1: fn ran (in-process or in a clean child); 0: child died with the class signature; -1: other crash; -2: skipped (budget) */
 static int run_isolated(struct iso_class *c, void (*fn)(void *), void *arg, int *in_process)
 {
@@ -737,12 +737,32 @@ static void case_rt(vh_rng *r)
 	if (live_blocks) { VIOL("C42:reference-block-not-released", "%ld heap blocks of freed evbuffers were never released", live_blocks); live_blocks = 0; }
 }
 
+/* --mode probe: one crafted evaluation per isolated witness class (each in a forked child) so that the driver learns,
+ * at the price of one symbolised report per class, whether the class still aborts; the driver then tells the bulk
+ * steps with --arg t<0|1>e<0|1> to run the class in-process (0) or to skip it (1). */
+static void case_probe(void)
+{
+	static const uint8_t tagin[] = { 0x80, 0x80, 0x80, 0x80, 0x80, 0x00, 0x00 }, emptyin[] = { 0x07, 0x00, 0x55 };
+	ISO_TAG.budget = 1; ISO_EMPTY.budget = 1;
+	fuzz_dispatch(D_TAG, tagin, sizeof(tagin), 0x10, 0, 0);
+	fuzz_dispatch(D_UNMARSHAL, emptyin, sizeof(emptyin), 0, 0, 0);
+	vh_stat(ISO_TAG.state == 1 ? "probe_tag_overread_crashes" : ISO_TAG.state == 0 ? "probe_tag_overread_clean" : "probe_tag_overread_unknown");
+	vh_stat(ISO_EMPTY.state == 1 ? "probe_empty_unmarshal_crashes" : ISO_EMPTY.state == 0 ? "probe_empty_unmarshal_clean" : "probe_empty_unmarshal_unknown");
+	vh_stat_add("cases", 2);
+	vh_stat_add("splits", 2);
+}
+
 int main(int argc, char **argv)
 {
 	long idx; vh_rng r;
 	vh_init(argc, argv);
+	if (vh_opt.arg && vh_opt.arg[0] == 't' && strlen(vh_opt.arg) == 4 && vh_opt.arg[2] == 'e') {
+		ISO_TAG.state = vh_opt.arg[1] == '1'; ISO_TAG.budget = 0;
+		ISO_EMPTY.state = vh_opt.arg[3] == '1'; ISO_EMPTY.budget = 0;
+	}
 	while (vh_next_case(&idx, &r)) {
 		if (mode_is("rt")) case_rt(&r);
+		else if (mode_is("probe")) case_probe();
 		else if (mode_is("fuzz")) case_fuzz(&r);
 		else { fprintf(stderr, "h_tag: unknown mode\n"); return 2; }
 	}
